@@ -134,6 +134,9 @@ func (e *Enc) applyCall(v ssa.Value, c *ssa.CallCommon, args []TV, in ssa.Instru
 		pure := false
 		if fn == nil || fn.Pkg == nil || !e.w.isRepoPkg(fn.Pkg.Pkg.Path()) {
 			pure = key != "" && e.w.isPureExternal(key)
+		} else if e.w.inferredPure[key] {
+			pure = true
+			e.inferredUsed[key] = true
 		}
 		if !pure {
 			if key == "" {
